@@ -669,3 +669,4 @@ func verifTwoMessages(prop string) {
 }
 
 func verif_C04_two_messages() { verifTwoMessages("C04") }
+func verif_C04_data_timeout() { verifDataTimeout("C04") }
